@@ -66,6 +66,7 @@ Section Spec.
     | ASwitch h cc cn _ => a_switch h cc cn
     | ARaiseSW h cc cn => raise (XSW h cc cn None)
     | AOther => raise XOther
+    | ADirect _ _ _ => ret      (* only a scripted frame action: see act13 *)
     end.
 
   Definition a_perform (o : origin) (a : action) : M := fun s =>
@@ -108,17 +109,27 @@ Record s13 := {
   b_st : state;
   b_fuel : nat;                    (* bound on the nesting of reactions in this operation *)
   b_inframe : bool;                (* an iteration is in progress and has not been abandoned *)
+  b_fw : Z;                        (* the world whose processors this iteration runs *)
   b_exp : list entry }.            (* log entries that must come next, in this order *)
 
 Definition with_exp (l : list entry) (fr : bool) (b : s13) : s13 :=
-  {| b_st := b_st b; b_fuel := b_fuel b; b_inframe := fr; b_exp := l |}.
+  {| b_st := b_st b; b_fuel := b_fuel b; b_inframe := fr; b_fw := b_fw b; b_exp := l |}.
 Definition with_st (s : state) (l : list entry) (fr : bool) (b : s13) : s13 :=
-  {| b_st := s; b_fuel := b_fuel b; b_inframe := fr; b_exp := l |}.
+  {| b_st := s; b_fuel := b_fuel b; b_inframe := fr; b_fw := b_fw b; b_exp := l |}.
 
-(* a scripted action a, performed in an iteration of the current world *)
+(* a scripted action a, performed in an iteration of the current world.  A
+   direct the_loop.switch(h, cc, cn) makes the loop enter h at once (no
+   on_switch_in / out, the world left keeps delivering); if nothing is raised
+   the frame goes on with the processors of the world it began with, and the
+   next iteration processes the world entered *)
 Definition act13 (b : s13) (a : action) : option s13 :=
-  match a_body (a_react_n (b_fuel b)) a (b_st b) with
-  | None | Some (_, _, RNorm) => None
+  match (match a with
+         | ADirect h cc cn => a_enter (a_react_n (b_fuel b)) h cc cn None (b_st b)
+         | _ => a_body (a_react_n (b_fuel b)) a (b_st b)
+         end) with
+  | None => None
+  | Some (s1, l1, RNorm) =>
+      match a with ADirect _ _ _ => Some (with_st s1 l1 true b) | _ => None end
   | Some (s1, l1, RExn (XSW h cc cn tag)) =>          (* the request reaches the loop *)
       match a_handler (a_react_n (b_fuel b)) (b_fuel b) h cc cn tag s1 with
       | Some (s2, l2, _) => Some (with_st s2 (l1 ++ l2) false b)
@@ -143,10 +154,12 @@ Definition step13 (b : s13) (x : entry) : option s13 :=
       match x with
       | EClock _ w h =>                 (* the world processed next is the one entered *)
           if (w =? s_curw s) && (h =? s_curh s)
-          then Some (with_st (set_inh false s) [] true b) else None
+          then Some {| b_st := set_inh false s; b_fuel := b_fuel b; b_inframe := true;
+                       b_fw := w; b_exp := [] |}
+          else None
       | EClockEnd _ w h =>
           if (w =? s_curw s) && (h =? s_curh s) then Some (with_exp [] false b) else None
-      | EProc w _ _ => if b_inframe b && (w =? s_curw s) then Some b else None
+      | EProc w _ _ => if b_inframe b && (w =? b_fw b) then Some b else None
       | EPoke _ tok w =>
           if b_inframe b then let '(s', l) := poke13 w tok s in Some (with_st s' l true b)
           else None
@@ -179,13 +192,13 @@ Definition op13 (s : state) (o : op) (l : list entry) : option state :=
         let n := S (length rs) in
         match a_enter (a_react_n n) h cc cn None (set_reacts rs s) with
         | Some (s1, l1, r1) =>
-            run13 {| b_st := set_inh false s1; b_fuel := n; b_inframe := false;
+            run13 {| b_st := set_inh false s1; b_fuel := n; b_inframe := false; b_fw := none;
                      b_exp := l1 ++ [top_entry r1 (s_curw s1) (s_curh s1)] |} l
         | None => None
         end
     | OStart _ _ rs =>
         run13 {| b_st := set_reacts rs s; b_fuel := S (length rs); b_inframe := false;
-                 b_exp := [] |} l
+                 b_fw := none; b_exp := [] |} l
     end in
   match r with
   | Some b' => match b_exp b' with [] => Some (b_st b') | _ => None end
